@@ -223,6 +223,39 @@ Reset ==
     /\ UNCHANGED <<rules, lines, qc>>
 
 -----------------------------------------------------------------------------
+(* Contact obligations (session level).  Pure operators over the loaded    *)
+(* rules and the observed admission state of one torrent:                  *)
+(*   sw     [out, inc, trk]  blocklist switches for outgoing / incoming    *)
+(*          connections and trackers                                       *)
+(*   self   <<ip, port>>     the torrent's own listening address           *)
+(*   conn   IPs the client is connected or connecting to                   *)
+(*   banned IPs banned for sending corrupt data                            *)
+(* Each returns the tag of the violated obligation ("" if none) for one    *)
+(* observed contact.                                                       *)
+
+\* @obligation C18.contact.dial.port0    never dials an address with port 0
+\* @obligation C18.contact.dial.self     never dials its own listening address
+\* @obligation C18.contact.dial.blocked  with the blocklist enabled for outgoing connections never dials a blocked address
+\* @obligation C18.contact.dial.dup      never dials an IP it is already connected or connecting to
+\* @obligation C18.contact.dial.banned   never dials an IP banned for sending corrupt data
+DialViol(ip, port, sw, self, conn, banned) ==
+    IF port = 0 THEN "C18.contact.dial.port0"
+    ELSE IF <<ip, port>> = self THEN "C18.contact.dial.self"
+    ELSE IF sw.out /\ Blocked(ip, rules) THEN "C18.contact.dial.blocked"
+    ELSE IF ip \in conn THEN "C18.contact.dial.dup"
+    ELSE IF ip \in banned THEN "C18.contact.dial.banned"
+    ELSE ""
+
+\* @obligation C18.contact.accept.blocked  with the blocklist enabled for incoming connections a blocked address gets no handshake answer
+AcceptViol(ip, sw) == IF sw.inc /\ Blocked(ip, rules) THEN "C18.contact.accept.blocked" ELSE ""
+
+\* @obligation C18.contact.announce.blocked  with the blocklist enabled for trackers no request goes to a tracker on a blocked address
+AnnounceViol(ip, sw) == IF sw.trk /\ Blocked(ip, rules) THEN "C18.contact.announce.blocked" ELSE ""
+
+\* @obligation C18.contact.webseed.blocked  (all switches on) no request goes to a web seed on a blocked address
+WebseedViol(ip, sw) == IF sw.out /\ sw.inc /\ sw.trk /\ Blocked(ip, rules) THEN "C18.contact.webseed.blocked" ELSE ""
+
+-----------------------------------------------------------------------------
 (* Global form of the obligations (checked by MC_Admission)                *)
 
 QBound  == Cardinality(q) <= qc.cap
